@@ -110,6 +110,11 @@ func (a *AuthenStart) Validate() error {
 			return err
 		}
 	}
+	for _, t := range []Field{a.User, a.Port, a.RemAddr, a.Data} {
+		if err := validateWireLen("AuthenStart field", t.Len(), maxUint8Len); err != nil {
+			return err
+		}
+	}
 	return nil
 }
 
@@ -249,6 +254,9 @@ func (a *AuthenContinue) Validate() error {
 		if err := t.Validate(nil); err != nil {
 			return err
 		}
+		if err := validateWireLen("AuthenContinue field", t.Len(), maxUint16Len); err != nil {
+			return err
+		}
 	}
 	return nil
 }
@@ -367,6 +375,11 @@ func (a *AuthenReply) Validate() error {
 	// validate
 	for _, t := range []Field{a.Status} {
 		if err := t.Validate(nil); err != nil {
+			return err
+		}
+	}
+	for _, t := range []Field{a.ServerMsg, a.Data} {
+		if err := validateWireLen("AuthenReply field", t.Len(), maxUint16Len); err != nil {
 			return err
 		}
 	}
